@@ -145,6 +145,10 @@ def execute(scenario: Dict[str, Any], sched_spec: Optional[Dict[str, Any]] = Non
     loop = DetLoop(sched_seed=sched.seed, iteration_cost=cfg.get("iteration_cost", 0.0),
                    max_callbacks=max_callbacks)
     run.loop = loop
+    if cfg.get("rt_factor"):
+        # a real-time run takes about until * rt_factor seconds; waiting loops that poll the wall
+        # clock keep a hung run alive with timers for ever, so bound the virtual time instead
+        loop.max_vtime = 20.0 + 30.0 * scenario.get("until", 1) * cfg["rt_factor"]
 
     def _exc_handler(_loop, context, _run=run):
         _run.loop_exceptions.append(str(context.get("message"))[:200])
